@@ -10,6 +10,7 @@ stubs.install_driver_stubs()
 from pony.orm import core, dbapiprovider as dp
 from pony.orm.dbproviders import sqlite as sq, postgres as pg, oracle as ora
 import psycopg2, cx_Oracle
+_STORE_TYPE = type(dp.Pool.forked_connections)          # the keep-alive store of the code under test (a list of pairs on the pinned tree): the harness empties it, it does not choose its type
 
 META = dict(
     level='proof',
@@ -49,11 +50,11 @@ def _pool_case(cfg, values):
     def setup(run):
         dp.os.getpid = lambda: (note('getpid'), p1)[1]
         dp.os.getppid = lambda: (note('getppid'), pp)[1]
-        dp.Pool.forked_connections = []
+        dp.Pool.forked_connections = _STORE_TYPE()
 
     def teardown(run):
         dp.os.getpid = real_getpid; dp.os.getppid = real_getppid
-        dp.Pool.forked_connections = []
+        dp.Pool.forked_connections = _STORE_TYPE()
 
     def call():
         st = cur().state
@@ -74,7 +75,7 @@ def _pool_case(cfg, values):
         except Fault:
             note('retry')
             r = pool.connect()                      # the application retries
-        st['forked'] = list(dp.Pool.forked_connections)
+        st['forked'] = dp.Pool.forked_connections
         return r
     return Case(call, I.terms, I.pre, setup, teardown)
 
@@ -95,8 +96,8 @@ def _pool_spec(cfg, i, path):
         return con is fresh and is_new is True and connected and pid_recorded
     differs = L.Not(L.Eq(i['recorded_pid'], i['current_pid']))
     forked_case = (con is fresh and is_new is True and connected and parent._uses == [] and pid_recorded
-                   and any(c is parent for c, _ in st['forked']))
-    same_case = (con is parent and is_new is False and not connected and st['forked'] == [] and parent._uses == [])
+                   and _holds(st['forked'], parent))
+    same_case = (con is parent and is_new is False and not connected and len(st['forked']) == 0 and parent._uses == [])
     return L.ite(differs, forked_case, same_case)
 
 
@@ -148,10 +149,127 @@ def _ora_spec(cfg, i, path):
     return L.ite(differs, forked_case, same_case)
 
 
+# ------------------------------------------------------------------ several pools in one child: every inherited connection stays parked (alive, unused) for the life of the child
+def _holds(store, x, depth=0):
+    """is object x reachable from the keep-alive store (a list of pairs on the pinned tree; any nesting of list / tuple / set / dict is accepted)"""
+    if store is x: return True
+    if depth > 4: return False
+    if isinstance(store, dict): return any(_holds(k, x, depth + 1) or _holds(v, x, depth + 1) for k, v in store.items())
+    if isinstance(store, (list, tuple, set, frozenset)): return any(_holds(v, x, depth + 1) for v in store)
+    return False
+
+
+def _many_configs(tier):
+    import itertools
+    out = []
+    for n in (1, 2, 3):
+        for owners in itertools.product(('parent', 'grandparent', 'this process'), repeat=n):
+            for kinds in (('Pool',) * n, ('SQLitePool', 'Pool', 'PGPool')[:n]):
+                for twice in (False, True):
+                    out.append(dict(owners=' '.join(owners), kinds=' '.join(kinds), connect_twice=twice))
+    return list({repr(sorted(c.items())): c for c in out}.values())
+
+
+def _many_case(cfg, values):
+    PID = {'parent': 100, 'grandparent': 50, 'this process': 200}
+    real_getpid = dp.os.getpid; saved = {}
+
+    def setup(run):
+        dp.os.getpid = lambda: 200
+        saved['store'] = dp.Pool.forked_connections
+        dp.Pool.forked_connections = _STORE_TYPE()                   # the store of the code under test, empty
+
+    def teardown(run):
+        dp.os.getpid = real_getpid
+        dp.Pool.forked_connections = saved['store']
+
+    def call():
+        st = cur().state; pools = []; inherited = []; own = []
+        for k, (owner, kind) in enumerate(zip(cfg['owners'].split(' ') if False else cfg['owners'].replace('this process', 'this_process').split(' '), cfg['kinds'].split(' '))):
+            owner = owner.replace('_', ' ')
+            if kind == 'Pool': pool = dp.Pool(sqlite3)
+            elif kind == 'SQLitePool': pool = sq.SQLitePool(False, ':memory:', False)
+            else: pool = pg.PGPool(psycopg2)
+            con = RecCon('%s-con-%d' % (owner, k)); pool.con = con; pool.pid = PID[owner]
+            fresh = RecCon('fresh-%d' % k)
+            pool._connect = (lambda pool=pool, fresh=fresh: setattr(pool, 'con', fresh))
+            pools.append(pool); (own if owner == 'this process' else inherited).append((pool, con, fresh))
+        results = []
+        for rnd in range(2 if cfg['connect_twice'] else 1):
+            for pool in pools: results.append(pool.connect())
+        st.update(inherited=inherited, own=own, results=results, store=dp.Pool.forked_connections, pools=pools)
+        return 'done'
+    return Case(call, {}, [], setup, teardown)
+
+
+def _many_spec(cfg, i, path):
+    if path.outcome != 'ret': return False
+    st = path.state
+    for pool, con, fresh in st['inherited']:
+        if con._uses != []: return False                               # never touched in this process
+        if not _holds(st['store'], con): return False                  # and kept alive: dropping the last reference would finalise (close) the parent's connection here
+        if pool.con is not fresh or pool.pid != 200: return False
+    for pool, con, fresh in st['own']:
+        if pool.con is not con or _holds(st['store'], con): return False
+    n = len(st['pools'])
+    for k, (c, is_new) in enumerate(st['results']):
+        pool = st['pools'][k % n]
+        if c is not pool.con: return False
+    return True
+
+
+# ------------------------------------------------------------------ Pool.disconnect (Database.disconnect() in the child, e.g. as the first thing after a fork)
+def _dis_configs(tier):
+    return [dict(pool=k, has_con=h) for k in ('Pool', 'SQLitePool', 'PGPool') for h in (True, False)]
+
+
+def _dis_case(cfg, values):
+    I = Inputs(values)
+    p0 = I.int('recorded_pid'); p1 = I.int('current_pid')
+    real_getpid = dp.os.getpid
+
+    def setup(run):
+        dp.os.getpid = lambda: (note('getpid'), p1)[1]
+        dp.Pool.forked_connections = _STORE_TYPE()
+
+    def teardown(run):
+        dp.os.getpid = real_getpid
+        dp.Pool.forked_connections = _STORE_TYPE()
+
+    def call():
+        st = cur().state
+        if cfg['pool'] == 'Pool': pool = dp.Pool(sqlite3)
+        elif cfg['pool'] == 'SQLitePool': pool = sq.SQLitePool(False, '/some/file.sqlite', False)
+        else: pool = pg.PGPool(psycopg2)
+        con = RecCon('recorded') if cfg['has_con'] else None
+        pool.con = con; pool.pid = p0 if cfg['has_con'] else None
+        st.update(pool=pool, con=con)
+        pool.disconnect()
+        st['forked'] = dp.Pool.forked_connections
+        return 'done'
+    return Case(call, I.terms, I.pre, setup, teardown)
+
+
+def _dis_spec(cfg, i, path):
+    if path.outcome != 'ret': return False
+    st = path.state; pool, con = st['pool'], st['con']
+    if pool.con is not None: return False                                   # the pool lets go of the connection in every case
+    if con is None: return len(st['forked']) == 0
+    differs = L.Not(L.Eq(i['recorded_pid'], i['current_pid']))
+    other_process = con._uses == [] and _holds(st['forked'], con)           # not closed, not rolled back: parked alive
+    own = con._uses == ['close'] and len(st['forked']) == 0
+    return L.ite(differs, other_process, own)
+
+
 CONTRACTS = [
     Contract('Pool.connect', ['pony.orm.dbapiprovider:Pool.connect'], _pool_configs, _pool_case,
              [('never_returns_or_touches_a_connection_of_another_process', _pool_spec)], allowed_exc=(Fault,),
              doc='all integer pids (symbolic); SQLitePool and PGPool inherit connect'),
+    Contract('Pool.connect.several_pools', ['pony.orm.dbapiprovider:Pool.connect'], _many_configs, _many_case,
+             [('every_inherited_connection_stays_parked_alive_and_unused', _many_spec)], level='bounded',
+             bound='1..3 pools (Pool / SQLitePool / PGPool) whose connections were opened by the parent, the grandparent or this process; each pool connected once or twice; concrete process ids'),
+    Contract('Pool.disconnect', ['pony.orm.dbapiprovider:Pool.disconnect'], _dis_configs, _dis_case,
+             [('closes_its_own_connection_and_parks_a_connection_of_another_process', _dis_spec)], doc='all integer pids (symbolic); file-backed SQLitePool and PGPool inherit disconnect'),
     Contract('OraPool.connect', ['pony.orm.dbproviders.oracle:OraPool.connect'], [dict()], _ora_case,
              [('never_uses_the_session_pool_of_another_process', _ora_spec)], allowed_exc=(Fault,),
              doc='creating the child\'s own session pool may fail; the application retries once'),
